@@ -34,6 +34,12 @@ if ALT:
     BIN = os.path.join(ROOT, "bin", "alt-" + _tag)
     RUN = os.path.join(ROOT, "run", "alt-" + _tag)
     EVID = os.path.join(RUN, "evidence")
+COVER = os.environ.get("VERIF_COVER") == "1"   # development tool (tools/cover.py): library block coverage of a check's workloads
+if COVER:
+    BIN = os.path.join(BIN, "cover")
+    RUN = os.path.join(RUN, "cover")
+    EVID = os.path.join(RUN, "evidence")
+COVDIR = os.path.join(RUN, "covdata")
 NCPU = os.cpu_count() or 4
 
 
@@ -81,7 +87,7 @@ def build(prop, variant):
             pass
     out = child_path(prop, variant)
     tmp = out + ".%d" % os.getpid()
-    cmd = ["go", "build"] + modflag + VARIANTS[variant] + ["-o", tmp, "./cmd/vc/" + prop.lower()]
+    cmd = ["go", "build"] + modflag + VARIANTS[variant] + (["-cover", "-coverpkg=github.com/emmansun/gmsm/...,verifh/cmd/..."] if COVER else []) + ["-o", tmp, "./cmd/vc/" + prop.lower()]
     t0 = time.time()
     p = subprocess.run(cmd, cwd=HARNESS, env=goenv(), stdout=subprocess.PIPE, stderr=subprocess.STDOUT, text=True)
     if p.returncode != 0:
@@ -175,6 +181,9 @@ class Job:
             e["GORACE"] = "halt_on_error=0 exitcode=0 log_path=%s" % self.racelog
         if self.procs:
             e["GOMAXPROCS"] = str(self.procs)
+        if COVER:
+            os.makedirs(COVDIR, exist_ok=True)
+            e["GOCOVERDIR"] = COVDIR
         return e
 
 
